@@ -209,7 +209,7 @@ func drawHS(r *eng.Run) (hsClient, hsServer) {
 	case 5:
 		c.Header, c.Odd = "X-First: 1\r\nX-Trace@Id: 7\r\nX-Last: 3\r\n", true
 	case 1:
-		c.Header = "X-Custom: value\r\n"
+		c.Header = []string{"X-Custom: value\r\n", "X-Custom: value\r\n", "X-Build:42\r\n", "X-Tab:\t1\r\n", "X-Empty:\r\n"}[r.T.Int(sim.LCfg, 5)]
 	case 2:
 		n := 5 + r.T.Int(sim.LLen, 1200)
 		if r.T.Chance(sim.LLen, 1, 24) {
@@ -262,7 +262,7 @@ func drawHS(r *eng.Run) (hsClient, hsServer) {
 	if r.T.Bool(sim.LCfg) {
 		s.FlateParams.ServerMaxWindowBits = wsflate.WindowBits(9 + r.T.Int(sim.LCfg, 7))
 	}
-	switch r.T.Int(sim.LCfg, 4) {
+	switch r.T.Int(sim.LCfg, 5) {
 	case 1:
 		s.Header = "X-Server: sim\r\n"
 	case 2:
@@ -272,6 +272,11 @@ func drawHS(r *eng.Run) (hsClient, hsServer) {
 			r.Probe("response_line_of_tens_of_kilobytes")
 		}
 		s.Header = "Set-Cookie: " + strings.Repeat("s", n) + "\r\n"
+	case 4:
+		// Legal field-line forms an application may write by hand: no space
+		// behind the colon, a tab, an empty value, spaces around the value.
+		s.Header = []string{"X-Build:42\r\n", "X-Tab:\t1\r\n", "X-Empty:\r\n", "X-Pad:   padded   \r\n", "X-A:1\r\nX-B: 2\r\n"}[r.T.Int(sim.LCfg, 5)]
+		r.Probe("hand_written_header_line_forms")
 	}
 	if s.Kind != 1 && r.T.Chance(sim.LFault, 1, 6) {
 		s.Reject = 1 + r.T.Int(sim.LFault, 4)
@@ -582,8 +587,13 @@ func runServerConn(r *eng.Run, s hsServer, p net.Conn, sent func() []byte, writa
 			u.Negotiate = s.negotiate(flate)
 		}
 		if s.Header != "" {
-			kv := strings.SplitN(strings.TrimSuffix(s.Header, "\r\n"), ": ", 2)
-			u.Header = http.Header{kv[0]: []string{kv[1]}}
+			// (HTTPUpgrader takes an http.Header: the lines' names and values.)
+			u.Header = http.Header{}
+			for _, l := range strings.Split(strings.TrimSuffix(s.Header, "\r\n"), "\r\n") {
+				if i := strings.IndexByte(l, ':'); i > 0 {
+					u.Header.Add(l[:i], strings.Trim(l[i+1:], " \t"))
+				}
+			}
 		}
 		var reqKeep []string
 		if s.EditResult {
